@@ -52,6 +52,9 @@ class FoldConstants(SuiteTransformer):
             # There is no nan literal.
             # we could use float('nan'), but that complicates folding as it's not a Constant
             return node
+        elif isinstance(original_value, complex) and any(math.isnan(part) or math.isinf(part) for part in (original_value.real, original_value.imag)):
+            # There are no literals for non-finite complex numbers, their repr is made of the names inf and nan
+            return node
         elif isinstance(original_value, bool):
             new_node = ast.NameConstant(value=original_value)
         elif isinstance(original_value, (int, float, complex)):
